@@ -345,6 +345,9 @@ class Tracer:
                     self.err(node, 'map over an emitter')
                 tmpl = self.apply(args[0], [elemv], node, depth)
                 return ('seqf' if args[1][0] == 'seqf' else 'seq', tmpl)
+            if len(args) == 2 and args[1][0] == 'text':
+                # a function mapped over (pieces of) rendered text
+                return ('text', [('xform', 'map', self.pieces_of(args[1]))])
             self.err(node, 'map() over something that is not the '
                      'expression list')
         if fv[0] == 'builtin':
@@ -452,6 +455,11 @@ class Tracer:
                     sep = self.pieces_of(o)
                     return ('text', [('joined', sep, ps,
                                       args[0][0] == 'seqf')])
+                if meth == 'join' and len(args) == 1 and \
+                        args[0][0] == 'text':
+                    # re-joining text that was taken apart before
+                    return ('text', [('xform', 'join',
+                                      self.pieces_of(args[0]))])
                 # any other string method transforms the text
                 return ('text', [('xform', meth, self.pieces_of(o))])
             if o[0] == 'module' or o[0] == 'modattr':
